@@ -1,7 +1,8 @@
 """Bounded refuter / CPython cross-check for Graph.from_targets, Graph.endpoints and the cycle
 check (replay only, never counted as proof).
-Bound: <= 3 targets, inputs/outputs lists of length <= 2 over 3 files x 5 spellings, every subset of
-files existing; structured cases first (duplicates, self loop, 2- and 3-cycles), then VERIF_SEED-seeded
+Bound: <= 3 targets, each in one of 3 working directories (/w, /w/sub, /w/other), inputs/outputs lists of
+length <= 2 over 3 files x 9 spellings (./, d/../, absolute, ../ climbing out of the working directory, a sibling
+directory, trailing /.), every subset of files existing; structured cases first (duplicates, self loop, 2- and 3-cycles), then VERIF_SEED-seeded
 pseudo-random workflows."""
 import itertools
 import os
@@ -11,19 +12,34 @@ WD = "/w"
 FILES = ["x", "y", "z"]
 
 
+WDS = [WD, WD + "/sub", WD + "/other"]
+
+
 def spellings(f):
+    """spellings of the file /w/<f> that are correct from every working directory in WDS, plus ones relative to WD"""
     return [f, "./" + f, "d/../" + f, WD + "/" + f, WD + "/./" + f]
 
 
-def canon(p):
-    return os.path.normpath(os.path.join(WD, p))
+def spellings_from(f, wd):
+    """spellings of the one file /w/<f> as written by a target whose working directory is wd"""
+    if wd == WD:
+        return spellings(f) + ["sub/../" + f, "../w/" + f, f + "/."]
+    return ["../" + f, "./../" + f, "../other/../" + f, WD + "/" + f, WD + "/sub/../" + f, "../" + f + "/."]
+
+
+def canon(p, wd=WD):
+    return os.path.normpath(os.path.join(wd, p))
+
+
+def wd_of(spec):
+    return spec[2] if len(spec) > 2 else WD
 
 
 def oracle(specs, existing):
     """specs: list of (inputs, outputs) raw path lists"""
     n = len(specs)
-    outs = [{canon(p) for p in o} for _, o in specs]
-    ins = [{canon(p) for p in i} for i, _ in specs]
+    outs = [{canon(p, wd_of(sp)) for p in sp[1]} for sp in specs]
+    ins = [{canon(p, wd_of(sp)) for p in sp[0]} for sp in specs]
     multi = any(outs[a] & outs[b] for a in range(n) for b in range(n) if a != b)
     provided = set().union(*outs) if outs else set()
     missing = any(p not in provided and p not in existing for i in ins for p in i)
@@ -48,8 +64,9 @@ def check_one(specs, existing_files):
     from gwf.core import Graph, Target, FileProvidedByMultipleTargetsError, UnresolvedInputError, \
         CircularDependencyError
     existing = {canon(f) for f in existing_files}
-    targets = {f"t{i}": Target(name=f"t{i}", inputs=list(i_), outputs=list(o_), options={}, working_dir=WD)
-               for i, (i_, o_) in enumerate(specs)}
+    targets = {f"t{i}": Target(name=f"t{i}", inputs=list(sp[0]), outputs=list(sp[1]), options={},
+                               working_dir=wd_of(sp))
+               for i, sp in enumerate(specs)}
 
     class FS:
         def exists(self, p):
@@ -86,11 +103,11 @@ def check_one(specs, existing_files):
     want_end = {a for a in range(n) if not want_inv[a]}
     if got_end != want_end:
         problems.append(f"endpoints {got_end} != {want_end}")
-    prov = {canon(p): idx[t] for p, t in g.provides.items()}
+    prov = {os.fspath(p): idx[t] for p, t in g.provides.items()}     # keys are the normalised paths themselves
     want_prov = {p: a for a in range(n) for p in o["outs"][a]}
     if prov != want_prov:
         problems.append(f"provides {prov} != {want_prov}")
-    unres = {canon(p) for p in g.unresolved}
+    unres = {os.fspath(p) for p in g.unresolved}
     want_unres = set().union(*o["ins"]) - o["provided"] if o["ins"] else set()
     if unres != want_unres:
         problems.append(f"unresolved {unres} != {want_unres}")
@@ -109,6 +126,13 @@ def structured():
     yield [([], ["x"]), (["d/../x"], ["y"])], []
     yield [(["x"], ["y"])], ["x"]
     yield [(["x"], ["y"])], []
+    # targets in different working directories naming one file (C03: "no matter how it is spelled")
+    yield [([], ["x"], WD), (["../x"], ["y"], WD + "/sub")], []
+    yield [([], ["../x"], WD + "/sub"), (["../x"], ["y"], WD + "/other")], []
+    yield [([], ["../x"], WD + "/sub"), ([], [WD + "/x"], WD + "/other")], []      # two producers, two spellings
+    yield [([], ["../other/x"], WD + "/sub"), (["x"], ["../y"], WD + "/other")], []
+    yield [([], ["."], WD + "/sub"), (["sub"], ["y"], WD)], []                     # the working directory itself
+    yield [(["../x"], ["../y"], WD + "/sub"), (["y"], ["x"], WD)], []              # 2-cycle across directories
 
 
 def search(seed=0, budget=30000):
@@ -129,7 +153,14 @@ def search(seed=0, budget=30000):
         while True:
             n = rnd.choice([1, 2, 2, 3, 3])
             specs = []
+            multi_wd = rnd.random() < 0.5
             for _ in range(n):
+                if multi_wd:
+                    wd = rnd.choice(WDS)
+                    pl = [s_ for f in FILES for s_ in spellings_from(f, wd)]
+                    specs.append(([rnd.choice(pl) for _ in range(rnd.choice([0, 1, 1, 2]))],
+                                  [rnd.choice(pl) for _ in range(rnd.choice([0, 1, 1, 2]))], wd))
+                    continue
                 specs.append(([rnd.choice(pool) for _ in range(rnd.choice([0, 1, 1, 2]))],
                               [rnd.choice(pool) for _ in range(rnd.choice([0, 1, 1, 2]))]))
             yield specs, [f for f in FILES if rnd.random() < 0.6]
@@ -156,6 +187,7 @@ def replay(eng, ob, model, seed):
     w, tried = search(seed)
     if w is None:
         return {"failed_on_real_code": False, "candidates_tried": tried,
-                "bound": "<=3 targets, lists <=2 over 3 files x 5 spellings, structured + seeded random cases"}
+                "bound": "<=3 targets in 3 working directories, lists <=2 over 3 files x 9 spellings, structured + "
+                         "seeded random cases"}
     return {"failed_on_real_code": True, "input": w, "observed": w["problems"], "candidates_tried": tried,
             "call": "gwf.core.Graph.from_targets(targets, fs)", "witness_class": classify(w)}
